@@ -96,6 +96,11 @@ def witnesses():
     three = {WF + '%s.yml' % n: wf(job('j', ['uses: ./.github/actions/broken', 'run: echo ${{ foo }}'])) for n in 'abc'}
     three['repo/.github/actions/broken/action.yml'] = BROKEN_ACTION
     add('multi-file-shared-broken-action', three, [WF + 'a.yml', WF + 'b.yml', WF + 'c.yml'])
+    one = {WF + 'a.yml': wf(job('j', ['uses: ./.github/actions/broken', 'run: echo ${{ foo }}'])),
+           WF + 'b.yml': wf(job('j', ['run: echo ${{ bar }}'])), WF + 'c.yml': wf(job('j', ['uses: ./.github/actions/noindex'])),
+           'repo/.github/actions/broken/action.yml': BROKEN_ACTION,
+           'repo/.github/actions/noindex/action.yml': REQ_ACTION.replace('required: true', 'required: false')}
+    add('multi-file-one-user-of-broken-action', one, [WF + 'a.yml', WF + 'b.yml', WF + 'c.yml'])
     ok3 = {WF + '%s.yml' % n: wf(job('j', ['run: echo ${{ foo%s }}' % n, 'uses: ./.github/actions/req'])) for n in 'abc'}
     ok3['repo/.github/actions/req/action.yml'] = REQ_ACTION
     ok3['repo/.github/actions/req/index.js'] = '// main\n'          # a well-formed shared action (control)
@@ -166,6 +171,8 @@ def run(ck, tier):
     # histories: the SAME Linter instance used for several runs must answer the same every time
     n0 = len(cases)
     for w in ws:
+        if w['name'] == 'multi-file-shared-broken-action':
+            continue      # inherently schedule dependent (the listed known finding); not a history witness
         if w['name'].startswith('multi-file') or 'broken' in w['name'] or 'required' in w['name']:
             cases.append(dict(w, id=len(cases) + 1, name='reused-linter:' + w['name'], reps=6 if tier == 'quick' else 24, cwd='repo',
                               single=False, reuse=True))
